@@ -4,6 +4,7 @@ import (
 	"bytes"
 	"context"
 	"fmt"
+	"io"
 	"net"
 	"strconv"
 	"strings"
@@ -311,6 +312,48 @@ func runPwire(ps config.Profiles, seq [][3]string) string {
 	var wg sync.WaitGroup
 	for i, t := range seq {
 		src, dst := optIP(t[0]), optIP(t[1])
+		if strings.HasSuffix(t[2], "/t") {
+			// this client asks over TCP (same wildcard listener address, same profile rules)
+			if src.To4() == nil || dst.To4() == nil {
+				return "bad-case"
+			}
+			id := uint16(i + 1)
+			d := net.Dialer{LocalAddr: &net.TCPAddr{IP: src}, Timeout: time.Second}
+			tc, err := d.Dial("tcp4", net.JoinHostPort(dst.String(), strconv.Itoa(port)))
+			if err != nil {
+				return "err dial " + err.Error()
+			}
+			body := append(wireName(fmt.Sprintf("n%d", i%3), "example", "com"), 0, 1, 0, 1)
+			pl := append(be16(int(id)), 1, 0, 0, 1, 0, 0, 0, 0, 0, 0)
+			pl = append(pl, body...)
+			if _, err := tc.Write(append(be16(len(pl)), pl...)); err != nil {
+				tc.Close()
+				return "err send " + err.Error()
+			}
+			wg.Add(1)
+			go func(i int, tc net.Conn) {
+				defer wg.Done()
+				defer tc.Close()
+				_ = tc.SetReadDeadline(time.Now().Add(4 * time.Second))
+				b := make([]byte, 600)
+				if _, err := io.ReadFull(tc, b[:2]); err != nil {
+					outs[i] = "TIMEOUT"
+					return
+				}
+				n := int(b[0])<<8 | int(b[1])
+				if n < 12 || n > len(b) {
+					outs[i] = "TIMEOUT"
+					return
+				}
+				if _, err := io.ReadFull(tc, b[:n]); err != nil || b[0] != byte(id>>8) || b[1] != byte(id) {
+					outs[i] = "TIMEOUT"
+					return
+				}
+				outs[i] = "ok"
+			}(i, tc)
+			time.Sleep(8 * time.Millisecond)
+			continue
+		}
 		if src.To4() == nil || dst.To4() == nil || !src.IsLoopback() || !dst.IsLoopback() {
 			return "bad-case"
 		}
@@ -365,7 +408,12 @@ func (r *Rng) genPwireLine(c *Ctx) string {
 	k := 2 + r.Intn(4)
 	var ts []string
 	for j := 0; j < k; j++ {
-		ts = append(ts, hx(net.IPv4(127, 0, 1, byte(1+r.Intn(4))).To4())+"/"+hx(net.IPv4(127, 0, 0, byte(1+r.Intn(3))).To4())+"/-")
+		t := hx(net.IPv4(127, 0, 1, byte(1+r.Intn(4))).To4()) + "/" + hx(net.IPv4(127, 0, 0, byte(1+r.Intn(3))).To4()) + "/-"
+		if r.Chance(30) {
+			t += "/t"
+			c.Stat("pwire:tcp-client")
+		}
+		ts = append(ts, t)
 	}
 	var wes []profEntry
 	for _, raw := range []string{"lo=p3", "127.0.1.2/32=p1", "127.0.1.0/30=p2", "127.0.0.0/8=abc123", "x", "127.0.1.3/32=P1"} {
@@ -405,6 +453,9 @@ func init() {
 			var seq [][3]string
 			for _, t := range strings.Split(f[1], ",") {
 				g := strings.Split(t, "/")
+				if len(g) == 4 && g[3] == "t" {
+					g = []string{g[0], g[1], g[2] + "/t"}
+				}
 				if len(g) != 3 {
 					c.Emit(l, "bad-case")
 					return
@@ -580,8 +631,8 @@ func init() {
 				var seq [][3]string
 				for _, t := range strings.Split(f[1], ",") {
 					g := strings.Split(t, "/")
-					if len(g) == 4 && g[3] == "e" {
-						g = []string{g[0], g[1], g[2] + "/e"}
+					if len(g) == 4 && (g[3] == "e" || g[3] == "t") {
+						g = []string{g[0], g[1], g[2] + "/" + g[3]}
 					}
 					if len(g) != 3 {
 						c.Emit(l, "bad-case")
